@@ -409,6 +409,35 @@ fn case(rec: &mut Rec, ctx: &Ctx, idx: u64, rng: &mut ChaCha20Rng, nonces: &Nonc
     });
   }
 
+  // ---- completeness after punctures: lowest-first, middle, highest-first; every
+  //      still-live tag must give proofs that verify against the (unchanged) public key
+  if tags.len() >= 3 && idx % 2 == 0 {
+    let mut srv = Server::new(tags.clone()).expect("server");
+    let pk2 = srv.get_public_key();
+    let order: Vec<u8> = match idx % 6 {
+      0 => tags.iter().cloned().take(tags.len() / 2).collect(),
+      2 => vec![tags[tags.len() / 2]],
+      _ => tags.iter().rev().cloned().take(2).collect(),
+    };
+    for p in order {
+      let _ = srv.puncture(p);
+      let live: Vec<u8> = tags.iter().cloned().filter(|t| srv.eval(&Client::blind(b"x").0, *t, false).is_ok()).take(6).collect();
+      for t in live {
+        let (bp, _) = Client::blind(&rand_bytes_in(rng, 0..16));
+        if let Ok(ev) = srv.eval(&bp, t, true) {
+          rec.ev("honest_proofs_after_puncture");
+          if !Client::verify(&pk2, &bp, &ev, t) {
+            rec.violation(
+              "honest-proof-rejected:after-puncture",
+              format!("after puncturing tag {} an honest verifiable evaluation for the live tag {} does not verify", p, t),
+              json!({"tags": tags.len(), "punctured": p, "tag": t}),
+            );
+            return;
+          }
+        }
+      }
+    }
+  }
   // ---- soundness: single-component tampering of the first honest evaluation
   let h = &honest[0];
   let bits = if ctx.thorough() { 256 } else { 16 };
